@@ -385,6 +385,10 @@ def run(prop, tier, seed, replay=None):
     rep.extra["points_per_scenario"] = pts
     validate_build_traces(rep, prop, tier, seed)
     if prop == "C18":
+        from . import inflight
+
+        inflight.parent_invalid_into(rep)
+    if prop == "C18":
         rep.rule = (
             "3 worlds x {first build, rebuild after a change, cache-miss resolution} x fault sources: invalid method (misuse of call_next, "
             "conflicting positional names, positional/keyword clash, unreadable source) at every registration position; user hook raising on "
